@@ -185,6 +185,9 @@ namespace sx {
   typedef std::function<void(const Options&, std::vector<Case>&)> CaseGen;
   int run_main(int argc, char** argv, const char* harness_name, CaseGen gen);
 
+#ifndef SX_REPLAY
+  Real uf(const std::string& name, std::initializer_list<Real> args);   // uninterpreted function application
+#endif
   // magic literals (symbolic numbers travelling through text)
   void magic_reset();
 }
